@@ -303,7 +303,8 @@ pub fn run(p: &Params, rep: &mut Report) {
         }
     }
     // every subject length from 0 to 300 (with a pattern of length 1-40 planted at a random place, or absent)
-    for n in (0..=300usize).filter(|n| *n as u64 % p.nshards == p.shard) {
+    let gap_lengths: Vec<usize> = (0..=300usize).chain((301..=1100).step_by(7)).chain([1500, 2047, 2048, 2049, 3000, 4095, 4096, 4097, 6000, 8191, 8192, 8193, 10_000, 16_384, 30_000, 32_768, 50_000].into_iter()).collect();
+    for n in gap_lengths.into_iter().enumerate().filter(|(i, _)| *i as u64 % p.nshards == p.shard).map(|(_, n)| n) {
         for _ in 0..2 {
             let mut a: Vec<u32> = (0..n).map(|_| *rng.pick(&[0x61u32, 0x61, 0x62])).collect();
             let lb = 1 + rng.usize(40.min(n.max(1)));
